@@ -156,6 +156,19 @@ class Xform:
             return env[e.id]
         if isinstance(e, ast.Name) and e.id in env and env[e.id][1][:1] == ("const",):
             return env[e.id][1][1]  # a local bound to a constant (e.g. a parameter of an inlined helper)
+        if isinstance(e, ast.Name) and e.id in env and env[e.id][1] == NONE:
+            return None
+        if isinstance(e, ast.Dict) and all(k is not None for k in e.keys):
+            return {self.const(k, env): self.const(v, env) for k, v in zip(e.keys, e.values)}
+        if isinstance(e, ast.BoolOp):
+            v = None
+            for x in e.values:
+                v = self.const(x, env)
+                if isinstance(e.op, ast.Or) and v:
+                    return v
+                if isinstance(e.op, ast.And) and not v:
+                    return v
+            return v
         if isinstance(e, ast.Attribute) and isinstance(e.value, ast.Name) and e.value.id in env:
             from ..model import Rec
 
